@@ -148,6 +148,15 @@ func (s *AScenario) configYAML(variant string) string {
 		// a compatible change: a new field appended and another transformation
 		fields += ", extra2"
 		extra = "  - type: addFields\n    fields:\n      extra2: v2\n"
+	case "addoutput":
+		// one more (or one fewer) output/buffer pair: parses and verifies on its own; whether a running agent can take it over
+		// is for the compatibility check to decide - either it is rejected or it has to work
+		c := *s
+		c.Out2 = !s.Out2
+		return c.configYAML("")
+	case "badenvfield":
+		// an output refers to a field the schema does not have: must be rejected before anything is torn down
+		return strings.Replace(s.configYAML(""), "environmentFields: [host, app]", "environmentFields: [host, nosuchfield]", 1)
 	case "incompatible":
 		// the orchestration keys change: must be rejected at reload
 		// (same number of keys in half of the scenarios: replaced or reordered; one key more or fewer in the others)
@@ -637,7 +646,7 @@ func (w *worldA) tweak(r *simrt.Rand, s *AScenario, end int) {
 		s.Reloader = true
 		s.Events = nil
 		for i, n := 0, 1+r.Intn(3); i < n; i++ {
-			s.Events = append(s.Events, AEvent{AtMs: r.Intn(end + 3000), Kind: []string{"sighup_valid", "sighup_valid", "sighup_invalid", "sighup_incompatible"}[r.Intn(4)]})
+			s.Events = append(s.Events, AEvent{AtMs: r.Intn(end + 3000), Kind: []string{"sighup_valid", "sighup_valid", "sighup_invalid", "sighup_incompatible", "sighup_valid", "sighup_addoutput", "sighup_badenvfield"}[r.Intn(7)]})
 		}
 		if r.Bool(25) {
 			restarts(1)
@@ -1082,8 +1091,9 @@ func (r *aRun) drive() {
 			if simsignal.Deliver(syscall.SIGUSR1) > 0 {
 				r.out.fault("sigusr1_delivered", 1)
 			}
-		case "sighup_valid", "sighup_invalid", "sighup_incompatible":
-			variant := map[string]string{"sighup_valid": "valid2", "sighup_invalid": "invalid", "sighup_incompatible": "incompatible"}[ev.Kind]
+		case "sighup_valid", "sighup_invalid", "sighup_incompatible", "sighup_addoutput", "sighup_badenvfield":
+			variant := map[string]string{"sighup_valid": "valid2", "sighup_invalid": "invalid", "sighup_incompatible": "incompatible",
+				"sighup_addoutput": "addoutput", "sighup_badenvfield": "badenvfield"}[ev.Kind]
 			r.writeConfig(variant)
 			if simsignal.Deliver(syscall.SIGHUP) > 0 {
 				r.out.fault(ev.Kind, 1)
